@@ -317,19 +317,30 @@ def oracles_sync(op, S0, S1, out, hist, stats):
             k0, n0 = kn[0] if kn else (op["truth"], "")
             v.append(viol("C10", "R3-not-idempotent", op, "second identical sync changed %s (%d -> %d bytes)" % (f, len(S0.get(f) or b""), len(S1.get(f) or b"")),
                           target_kind=target_kind(k0, n0), pre_state=pres.get((k0, f)), grew=len(S1.get(f) or b"") > len(S0.get(f) or b"")))
-    # ---- C10 R4: convergence within a quiet run of syncs
+    # ---- C10 R4: within a run of syncs without edits (any mix of commands)
+    #   R4a: if nothing at all changed since the previous execution of this same command, it must change nothing now;
+    #   R4b: a file must not grow at three consecutive executions of the same command (a definition appended again on every run).
+    # Oscillation between *different* truths is deliberately not flagged: with F01 open, function-kind targets are never
+    # updated, so alternating truths can legitimately never agree.
     quiet = hist.setdefault("quiet", {})
     key = digest(op_spec(op))
-    quiet[key] = quiet.get(key, 0) + 1
-    if quiet[key] >= 3 and changed:
+    q = quiet.setdefault(key, {"n": 0, "after": None, "sizes": {}})
+    q["n"] += 1
+    if q["after"] is not None:
         stats["r4_checked"] = stats.get("r4_checked", 0) + 1
-        for f in sorted(changed):
-            kn = [(k, n) for k, n, ff in iter_targets(op) if ff == f]
-            k0, n0 = kn[0] if kn else (op["truth"], "")
-            v.append(viol("C10", "R4-no-convergence", op, "execution #%d of the same sync in a run without edits still changed %s" % (quiet[key], f),
-                          target_kind=target_kind(k0, n0), pre_state=pres.get((k0, f)), grew=len(S1.get(f) or b"") > len(S0.get(f) or b"")))
-    elif quiet[key] >= 3:
-        stats["r4_checked"] = stats.get("r4_checked", 0) + 1
+        if q["after"] == {f: sha(d) for f, d in S0.items()}:
+            for f in sorted(changed):
+                kn = [(k, n) for k, n, ff in iter_targets(op) if ff == f]
+                k0, n0 = kn[0] if kn else (op["truth"], "")
+                v.append(viol("C10", "R4-no-convergence", op, "execution #%d of the same sync, with the project exactly as its previous execution left it, changed %s" % (q["n"], f),
+                              target_kind=target_kind(k0, n0), pre_state=pres.get((k0, f)), grew=len(S1.get(f) or b"") > len(S0.get(f) or b"")))
+    for kind, name, f in iter_targets(op):
+        sz = q["sizes"].setdefault(f, [])
+        sz.append(len(S1.get(f) or b""))
+        if len(sz) >= 4 and sz[-4] < sz[-3] < sz[-2] < sz[-1]:
+            v.append(viol("C10", "R4-growth", op, "%s grew at three consecutive executions of the same sync without any edit in between (%s bytes)" % (f, sz[-4:]),
+                          target_kind=target_kind(kind, name), pre_state=pres.get((kind, f)), grew=True))
+    q["after"] = {f: sha(d) for f, d in S1.items()}
 
     # ---- C09 A1/A2 and C11 per target
     for kind, name, f in iter_targets(op):
@@ -363,7 +374,8 @@ def oracles_sync(op, S0, S1, out, hist, stats):
                     if b is not None and a != b and not (a is None and b is None):
                         # explicit default of the truth must be carried (value and type)
                         if not (type(a) is type(b) and a == b):
-                            v.append(viol("C09", "A2-default", op, "%s.%s default is %r, truth says %r" % (name, nme, a, b), **common))
+                            dkind = "%s%s->%s" % (type(b).__name__, "-empty" if b == "" and isinstance(b, str) else "", type(a).__name__)
+                            v.append(viol("C09", "A2-default", op, "%s.%s default is %r, truth says %r" % (name, nme, a, b), dkind=dkind, **common))
                             break
         # C11 - conservation of everything else
         before = S0.get(f)
@@ -451,7 +463,7 @@ def _mask_fingerprint(tree, paths):
     """Fingerprint of `tree` with the addressed nodes masked (C14): a list of per-statement dumps in which
     an addressed statement is replaced by a marker and an addressed argument is replaced, together with
     its default, by a marker."""
-    tree = copy.deepcopy(tree)
+    tree = resolver._norm_docstrings(tree)  # (a deep copy) docstrings compared modulo black's whitespace normalisation
     for p in paths:
         res = resolver.resolve(tree, p)
         if res is None:
@@ -493,7 +505,7 @@ def _mask_fingerprint(tree, paths):
             body = n.body
             c.body = []
             return ("cls", ast.dump(c), tuple(fp(s) for s in body))
-        return resolver.norm_dump(n)
+        return ast.dump(n)
 
     for s in tree.body:
         out.append(fp(s))
@@ -564,6 +576,10 @@ def oracles_sync_properties(op, S0, S1, out, stats):
     # Without eval the addressed node is replaced by the input's node *including its name* (this is what the suite's
     # golden files show: `h: Literal['b']` becomes `f: Literal['a']`); with eval the output keeps its name.
     after_paths = [opath if ev else opath[:-1] + [ip[-1]] for ip, opath in zip(in_paths, out_paths)]
+    if len({tuple(p) for p in after_paths}) != len(after_paths) or len({tuple(p) for p in out_paths}) != len(out_paths):
+        # two pairs land on one name in one scope (the request itself is ill-formed): nothing can be attributed
+        stats["sp_skipped_ambiguous"] = stats.get("sp_skipped_ambiguous", 0) + 1
+        return v
     if _mask_fingerprint(tout, out_paths) != _mask_fingerprint(t_after, after_paths):
         v.append(viol("C14", "M-other-nodes-changed", op, "nodes other than the addressed ones changed in the output file", **common))
     # every pair applied: the node at each output address now carries the input's annotation
